@@ -134,6 +134,8 @@ impl LogicalLineFileFormatter for OptimisingLineFormatter {
         lines_to_reflow.dedup_by_key(|line| line.0);
 
         for line in lines_to_reflow {
+            #[cfg(feature = "verif")]
+            crate::verif::emit(crate::verif::Event::Reflow { line_index: line.0 });
             if let Some(solution) = olf.format_line(line) {
                 olf.reconstruct_solution(&solution, line.1);
             }
@@ -302,6 +304,39 @@ struct InternalOptimisingLineFormatter<'this, 'token> {
 }
 
 impl<'this> InternalOptimisingLineFormatter<'this, '_> {
+    /// Reports which tokens (those of the line and of all its descendant lines) are left as
+    /// spaced because no wrapping solution was produced.
+    #[cfg(feature = "verif")]
+    fn verif_emit_fallback(&self, line: (usize, &LogicalLine), err: &FormattingSolutionError) {
+        let mut first_token = usize::MAX;
+        let mut last_token = 0;
+        for candidate in self.lines {
+            let mut current = Some(candidate);
+            let mut is_descendant = std::ptr::eq(candidate, line.1);
+            let mut depth = 0;
+            while let (false, Some(parent)) = (
+                is_descendant || depth > self.lines.len(),
+                current.and_then(LogicalLine::get_parent),
+            ) {
+                is_descendant = parent.line_index == line.0;
+                current = self.lines.get(parent.line_index);
+                depth += 1;
+            }
+            if is_descendant {
+                for &token in candidate.get_tokens() {
+                    first_token = first_token.min(token);
+                    last_token = last_token.max(token);
+                }
+            }
+        }
+        crate::verif::emit(crate::verif::Event::WrapFallback {
+            line_index: line.0,
+            first_token,
+            last_token,
+            iteration_limit: matches!(err, FormattingSolutionError::IterationLimitReached),
+        });
+    }
+
     fn format_line(&self, line: (usize, &LogicalLine)) -> Option<FormattingSolution> {
         if line.1.get_line_type() == LLT::AsmInstruction {
             trace!(
@@ -334,6 +369,8 @@ impl<'this> InternalOptimisingLineFormatter<'this, '_> {
 
         optimal_solution
             .inspect_err(|err| {
+                #[cfg(feature = "verif")]
+                self.verif_emit_fallback(line, err);
                 error!(
                     "{} for\n{:?}",
                     match err {
@@ -517,6 +554,8 @@ impl<'this> InternalOptimisingLineFormatter<'this, '_> {
         let mut node_successors = Vec::new();
 
         'node_heap: while let Some(mut node) = node_heap.pop() {
+            #[cfg(feature = "verif")]
+            crate::verif::step();
             if iteration_count > self.settings.iteration_max {
                 return Err(FormattingSolutionError::IterationLimitReached);
             }
@@ -1079,6 +1118,8 @@ impl<'this> InternalOptimisingLineFormatter<'this, '_> {
                 child_line_option: option,
             };
             if let Some(sol) = self.child_line_cache.borrow().get(&cache_key) {
+                #[cfg(feature = "verif")]
+                crate::verif::child_cache_hit(line.0);
                 return Some(sol.clone());
             }
 
